@@ -157,8 +157,8 @@ Definition classify (buf : list N) : option (N * list N) :=
   | 60 :: sp =>
       if negb (last buf 0 =? 62) then None else
       match sp with
-      | 47 :: sp' => Some (QAC_OTYPE_SECTIONCLOSE, removelast sp')
-      | _ => Some (QAC_OTYPE_SECTIONOPEN, removelast sp)
+      | 47 :: sp' => Some (QAC_OTYPE_SECTIONCLOSE, trim_tail (removelast sp'))    (* the bracket is removed, then qstrtrimtail() *)
+      | _ => Some (QAC_OTYPE_SECTIONOPEN, trim_tail (removelast sp))
       end
   | _ => Some (QAC_OTYPE_OPTION, buf)
   end.
